@@ -56,6 +56,9 @@ CLAIMED["C02"]=("Bounded symbolic execution of the real yyParse (generated LALR 
 CLAIMED["C16"]=("Bounded symbolic execution of the real simplexer Scan / Peek / peekBuf / readBufIfNeed / readBuf / consumeBuffer with the buffer length, the unread input length, the token length and every read count as solver variables (buffer content abstracted): one Scan step from an arbitrary state satisfying the buffer invariant returns the whole token and preserves the invariant, for a full reader and for arbitrary short reads, for greedy and delimited token classes. An inductive step: file size is unbounded; token length up to 6000 bytes, at most 4 reads per scan (quick).",
         TRUST+" Token types and the reader are contract stubs (evidence.assumptions).",
         "SMT-decided bounded symbolic execution of go/ssa (z3, bit-vectors; string lengths as terms)")
+CLAIMED["C20"]=("Solver-decided lock / happens-before check extracted from the real code's go/ssa: every access to a package-level map (Lookup, MapUpdate, range, len, delete through a load of the global) and every sync.(RW)Mutex operation around it, with callees inlined; for every pair of conflicting accesses in every pair of entry functions z3 is asked for a two-thread schedule (timestamps, program order, RW-mutex exclusion) in which the accesses are adjacent. unsat for all pairs = no race on the interpreter-wide tables for any interleaving of two calls; a sat schedule is confirmed with a generated go test -race stress test before it is reported.",
+        "Trusted: go/ssa construction; the extraction rules listed in evidence.assumptions (linear block order, package-level mutexes, static callees); z3. Races on state other than package-level maps are outside the claim.",
+        "SMT schedule search (z3, integer timestamps) over lock/access events extracted from go/ssa")
 NA={
 }
 DEFAULT_NA="check under construction in this session (engine exists; harness not yet registered)"
